@@ -50,6 +50,7 @@ type c27Frame struct {
 	needMem  uint64 // memory bytes the previous op addresses (0 = none)
 	add, sub uint64 // gas returned by / forwarded to children since the previous step
 	children int
+	input    []byte
 }
 
 type c27Monitor struct {
@@ -66,6 +67,9 @@ type c27Monitor struct {
 	expansions int
 	nested     int
 	slack      uint64 // Amsterdam: execution gas that went to state-gas spill so far (may come back)
+	// active precompiles; their price list (RequiredGas) is trusted, that the EVM
+	// charges exactly that price is checked
+	precompiles vm.PrecompiledContracts
 	depthErr   bool
 	topUsed    uint64
 	topStart   uint64
@@ -212,6 +216,11 @@ func (m *c27Monitor) exactBase(op byte, lenOperand uint64) (uint64, bool) {
 	return 0, false
 }
 
+func c27NewMonitor(f ep.Fork) *c27Monitor {
+	rules := evmx.Rules(f)
+	return &c27Monitor{fork: f, amsterdam: rules.IsAmsterdam, rules: rules, precompiles: vm.ActivePrecompiledContracts(rules)}
+}
+
 func (m *c27Monitor) hooks() *tracing.Hooks {
 	return &tracing.Hooks{OnEnter: m.onEnter, OnExit: m.onExit, OnOpcode: m.onOpcode}
 }
@@ -233,7 +242,11 @@ func (m *c27Monitor) onEnter(depth int, typ byte, from, to common.Address, input
 	} else {
 		m.topStart = gas
 	}
-	m.frames = append(m.frames, &c27Frame{typ: typ, start: gas, depth: depth, to: to})
+	fr := &c27Frame{typ: typ, start: gas, depth: depth, to: to}
+	if _, ok := m.precompiles[to]; ok && !isCreateType(typ) && typ != ep.SELFDESTRUCT {
+		fr.input = append([]byte{}, input...)
+	}
+	m.frames = append(m.frames, fr)
 	if depth > m.maxDepth {
 		m.maxDepth = depth
 	}
@@ -266,6 +279,14 @@ func (m *c27Monitor) onExit(depth int, output []byte, gasUsed uint64, err error,
 	case errors.Is(err, vm.ErrDepth), errors.Is(err, vm.ErrInsufficientBalance), errors.Is(err, vm.ErrNonceUintOverflow):
 		if gasUsed != 0 {
 			m.bad("frame depth %d refused with %v consumed %d gas", depth, err, gasUsed)
+		}
+	case f.steps == 0 && err == nil:
+		if p, ok := m.precompiles[f.to]; ok && !isCreateType(f.typ) {
+			if want := p.RequiredGas(f.input); gasUsed != want {
+				m.bad("precompile %x (%s, %d input bytes) succeeded using %d gas, its price is %d", f.to, ep.OpName(f.typ), len(f.input), gasUsed, want)
+			}
+		} else if gasUsed != 0 && !isCreateType(f.typ) {
+			m.bad("frame depth %d (%s to %x) executed no instruction but used %d gas", depth, ep.OpName(f.typ), f.to, gasUsed)
 		}
 	case f.steps > 0:
 		// success, REVERT, or pre-Homestead code-store OOG: unused gas returned exactly
@@ -663,7 +684,7 @@ func c27Property(rt *rapid.T, st *vs.S) {
 	}
 	// 1. monitored path first: a violation stops here, before the unmonitored run could
 	// act on it (e.g. allocate unpaid memory)
-	mon := &c27Monitor{fork: cs.fork, amsterdam: rules.IsAmsterdam, rules: rules}
+	mon := c27NewMonitor(cs.fork)
 	r2 := cs.run(base, mon.hooks())
 	if len(mon.viol) > 0 {
 		rt.Fatalf("C27 monitor: %d violation(s), first: %s\n%s", len(mon.viol), mon.viol[0], cs.dump())
@@ -778,8 +799,7 @@ func TestVerifC27Api(t *testing.T) {
 			ret  []byte
 			pan  string
 			kind = ep.Uniform(rt, "api", 2+1)
-			rls  = evmx.Rules(cs.fork)
-			mon  = &c27Monitor{fork: cs.fork, amsterdam: rls.IsAmsterdam, rules: rls}
+			mon  = c27NewMonitor(cs.fork)
 		)
 		func() {
 			defer func() {
@@ -836,7 +856,7 @@ func FuzzVerifC27Bytes(f *testing.F) {
 		base := evmx.NewState()
 		evmx.Install(base, w, cs.pre)
 		rules := evmx.Rules(fork)
-		mon := &c27Monitor{fork: fork, amsterdam: rules.IsAmsterdam, rules: rules}
+		mon := c27NewMonitor(fork)
 		r := cs.run(base, mon.hooks())
 		if len(mon.viol) > 0 {
 			t.Fatalf("C27 monitor: %s\n%s", mon.viol[0], cs.dump())
